@@ -1003,6 +1003,8 @@ class Encoder:
                     return VInt(e)
                 if isinstance(x, VRef) and x.kind == "threadlist":
                     return VInt(sc["wcount"])
+                if isinstance(x, VRef) and x.kind == "graph":
+                    return VInt(self.N)
                 raise Unsupported("len argument")
             if name in ("min", "max"):
                 if all(isinstance(x, VInt) for x in args) and len(args) == 2:
@@ -1103,6 +1105,9 @@ class Encoder:
         if isinstance(o, VRef) and o.kind == "observer" and meth.startswith("increment_"):
             self.notify(s, tid, meth, rd_scope=None)
             return VNone()
+        if isinstance(o, VRef) and o.kind == "glob" and (meth.endswith("Error") or meth.endswith("Exception") or meth in ("HasACycle", "NetworkXUnfeasible")):
+            # construction of an exception object from a module attribute (e.g. nx.HasACycle(...)): some Exception, no origin node
+            return VExc(True, K_EXC, bv(self.N))
         raise Unsupported(f"method {meth} on {o.key()} (line {ins.line})")
 
     # ------------------------------------------------------------------ user function events + monitors
